@@ -530,6 +530,7 @@ func TestC11(t *testing.T) {
 		"Fan-out over TCP client, UDP client, UDP broadcast and serial endpoints with real sockets / a fake port (datagram links: one whole frame per datagram, order, uniqueness, isolation). A separate scenario makes one transport write fail once (plain error, deadline exceeded, EPIPE, short write) and demands exactly-once in-order delivery of everything written afterwards to the still open channel. " +
 		"distinct = distinct interleaving signatures")
 	rep.RuleAdd("Also: stale / nil targets, close order, partial drain after overflow, and a long-lived channel on which hundreds of items fail one by one (unencodable 255-byte raw items, ids above 255 on v1 links, single failing transport writes), each followed by a valid item. A steady flow on one healthy TCP link lasting five write timeouts.")
+	rep.RuleAdd("Rounds 12-15: bounded flow control, hundreds of failed items on one channel, writes in answer to open events, stalls of four write timeouts, net.ErrClosed write errors, forwarded frames with compatibility flags, close order with a stall longer than the write timeout.")
 	rep.Assume("channels that open or close during a call may or may not receive it; linearizability across goroutines is not demanded (only per-goroutine order is promised)")
 	seed := shardSeed()
 	n := vh.Pick(120, 600)
